@@ -1,1 +1,170 @@
-// harnesses for comparison (cfg(kani) only)
+// Harnesses for src/query/comparison.rs (cfg(kani) only): C04, C13 (number spellings), C15.
+#![allow(unused_imports, dead_code)]
+use super::*;
+use crate::verif_common::*;
+use core::mem::forget;
+
+// operand generators: None = nothing (empty nodelist)
+fn g_nothing(sc: &mut Scratch) -> Option<Mini> {
+    None
+}
+fn g_null(sc: &mut Scratch) -> Option<Mini> {
+    Some(Mini::Null)
+}
+fn g_bool(sc: &mut Scratch) -> Option<Mini> {
+    Some(Mini::Bool(kani::any()))
+}
+/// any i64 (documents may hold integers outside the I-JSON range)
+fn g_int(sc: &mut Scratch) -> Option<Mini> {
+    Some(Mini::Int(kani::any()))
+}
+/// I-JSON integer
+fn g_iint(sc: &mut Scratch) -> Option<Mini> {
+    Some(Mini::Int(any_ijson()))
+}
+fn g_float(sc: &mut Scratch) -> Option<Mini> {
+    Some(Mini::Float(any_finite_f64()))
+}
+/// any string of <= 2 Unicode scalar values (thorough tier)
+fn g_str(sc: &mut Scratch) -> Option<Mini> {
+    Some(Mini::Str(leak_str(any_string(2))))
+}
+/// any string of <= 1 Unicode scalar value (1..4 UTF-8 bytes)
+fn g_str1(sc: &mut Scratch) -> Option<Mini> {
+    Some(Mini::Str(leak_str(any_string(1))))
+}
+/// any ASCII string of <= 2 bytes
+fn g_ascii2(sc: &mut Scratch) -> Option<Mini> {
+    Some(Mini::Str(leak_str(any_ascii(2))))
+}
+/// array of 0..=2 integers
+fn g_arr(sc: &mut Scratch) -> Option<Mini> {
+    let n: usize = kani::any();
+    kani::assume(n <= 2);
+    sc.elems[0] = Mini::Int(kani::any());
+    sc.elems[1] = Mini::Int(kani::any());
+    Some(sc.arr(n))
+}
+/// array [bool, null|string] - non numeric elements
+fn g_arr2(sc: &mut Scratch) -> Option<Mini> {
+    sc.elems[0] = Mini::Bool(kani::any());
+    sc.elems[1] = Mini::Str(leak_str(any_ascii(1)));
+    Some(sc.arr(2))
+}
+/// arrays whose elements are one int and one float (role D: finding F7)
+fn g_arr_if(sc: &mut Scratch) -> Option<Mini> {
+    sc.elems[0] = Mini::Int(any_ijson());
+    sc.elems[1] = Mini::Float(any_finite_f64());
+    Some(sc.arr(2))
+}
+fn g_arr_fi(sc: &mut Scratch) -> Option<Mini> {
+    sc.elems[0] = Mini::Float(any_finite_f64());
+    sc.elems[1] = Mini::Int(any_ijson());
+    Some(sc.arr(2))
+}
+/// object {"a": int, "b": bool}
+fn g_obj(sc: &mut Scratch) -> Option<Mini> {
+    sc.members[0] = (String::from("a"), Mini::Int(kani::any()));
+    sc.members[1] = (String::from("b"), Mini::Bool(kani::any()));
+    Some(sc.obj(2))
+}
+/// object {"b": bool, "a": int} (same members, other document order)
+fn g_obj_ba(sc: &mut Scratch) -> Option<Mini> {
+    sc.members[0] = (String::from("b"), Mini::Bool(kani::any()));
+    sc.members[1] = (String::from("a"), Mini::Int(kani::any()));
+    Some(sc.obj(2))
+}
+/// object {"a": int}
+fn g_obj1(sc: &mut Scratch) -> Option<Mini> {
+    sc.members[0] = (String::from("a"), Mini::Int(kani::any()));
+    Some(sc.obj(1))
+}
+
+// One harness per unordered operand-kind pair: eq and lt in both argument
+// orders, each operand as owned value and as node reference (all four form
+// combinations, concrete), against RFC 9535 2.3.5.2.2.
+macro_rules! c04_forms {
+    ($root:ident, $a:ident, $b:ident, $se:ident, $sl_ab:ident, $sl_ba:ident, $fa:expr, $fb:expr) => {
+        let e_ab = eq(operand(&$root, &$a, $fa), operand(&$root, &$b, $fb));
+        let e_ba = eq(operand(&$root, &$b, $fb), operand(&$root, &$a, $fa));
+        let l_ab = lt(operand(&$root, &$a, $fa), operand(&$root, &$b, $fb));
+        let l_ba = lt(operand(&$root, &$b, $fb), operand(&$root, &$a, $fa));
+        assert!(e_ab == $se, "== differs from RFC 9535 equality");
+        assert!(e_ba == $se, "== is not symmetric / differs from RFC 9535 equality");
+        assert!(l_ab == $sl_ab, "< differs from RFC 9535 ordering");
+        assert!(l_ba == $sl_ba, "< (mirrored operands) differs from RFC 9535 ordering");
+    };
+}
+macro_rules! c04_pair {
+    ($name:ident, $l:ident, $r:ident, $unwind:expr) => {
+        c04_pair!($name, $l, $r, $unwind, false, true);
+    };
+    ($name:ident, $l:ident, $r:ident, $unwind:expr, $can_eq:expr, $can_ne:expr) => {
+        proof!($name, $unwind, {
+            let root = Mini::Null;
+            let (mut sa, mut sb) = (Scratch::new(), Scratch::new());
+            let a = $l(&mut sa);
+            let b = $r(&mut sb);
+            let (se, sl_ab, sl_ba) = (spec_eq(&a, &b), spec_lt(&a, &b), spec_lt(&b, &a));
+            c04_forms!(root, a, b, se, sl_ab, sl_ba, true, false);
+            c04_forms!(root, a, b, se, sl_ab, sl_ba, false, true);
+            kani::cover!(se || !$can_eq, "operands equal");
+            kani::cover!(!se || !$can_ne, "operands differ");
+            forget(sa);
+            forget(sb);
+        });
+    };
+}
+
+// nothing row
+c04_pair!(c04_nothing_nothing, g_nothing, g_nothing, 3, true, false);
+c04_pair!(c04_nothing_null, g_nothing, g_null, 3);
+c04_pair!(c04_nothing_bool, g_nothing, g_bool, 3);
+c04_pair!(c04_nothing_int, g_nothing, g_int, 3);
+c04_pair!(c04_nothing_float, g_nothing, g_float, 3);
+c04_pair!(c04_nothing_str, g_nothing, g_str1, 6);
+c04_pair!(c04_nothing_arr, g_nothing, g_arr, 4);
+c04_pair!(c04_nothing_obj, g_nothing, g_obj, 4);
+// null row
+c04_pair!(c04_null_null, g_null, g_null, 3, true, false);
+c04_pair!(c04_null_bool, g_null, g_bool, 3);
+c04_pair!(c04_null_int, g_null, g_int, 3);
+c04_pair!(c04_null_float, g_null, g_float, 3);
+c04_pair!(c04_null_str, g_null, g_str1, 6);
+c04_pair!(c04_null_arr, g_null, g_arr, 4);
+c04_pair!(c04_null_obj, g_null, g_obj, 4);
+// bool row
+c04_pair!(c04_bool_bool, g_bool, g_bool, 3, true, true);
+c04_pair!(c04_bool_int, g_bool, g_int, 3);
+c04_pair!(c04_bool_float, g_bool, g_float, 3);
+c04_pair!(c04_bool_str, g_bool, g_str1, 6);
+c04_pair!(c04_bool_arr, g_bool, g_arr, 4);
+c04_pair!(c04_bool_obj, g_bool, g_obj, 4);
+// numbers
+c04_pair!(c04_int_int, g_int, g_int, 3, true, true);
+c04_pair!(c04_iint_float, g_iint, g_float, 3, true, true);
+c04_pair!(c04_float_float, g_float, g_float, 3, true, true);
+c04_pair!(c04_int_str, g_int, g_str1, 6);
+c04_pair!(c04_int_arr, g_int, g_arr, 4);
+c04_pair!(c04_int_obj, g_int, g_obj, 4);
+c04_pair!(c04_float_str, g_float, g_str1, 6);
+c04_pair!(c04_float_arr, g_float, g_arr, 4);
+c04_pair!(c04_float_obj, g_float, g_obj, 4);
+// strings: order by Unicode scalar value (1 scalar each: UTF-8 vs UTF-16 vs scalar
+// order), prefix and second-position rules (ASCII, 2 bytes each); 2 scalars each: thorough
+c04_pair!(c04_str1_str1, g_str1, g_str1, 6, true, true);
+c04_pair!(c04_ascii2_ascii2, g_ascii2, g_ascii2, 4, true, true);
+c04_pair!(c04_str1_ascii2, g_str1, g_ascii2, 6, true, true);
+c04_pair!(c04_str_str, g_str, g_str, 10, true, true);
+c04_pair!(c04_str_arr, g_str1, g_arr, 6);
+c04_pair!(c04_str_obj, g_str1, g_obj, 6);
+// structured
+c04_pair!(c04_arr_arr, g_arr, g_arr, 4, true, true);
+c04_pair!(c04_arr2_arr2, g_arr2, g_arr2, 4, true, true);
+c04_pair!(c04_arr_arr2, g_arr, g_arr2, 4);
+c04_pair!(c04_arr_obj, g_arr, g_obj, 4);
+c04_pair!(c04_obj_obj, g_obj, g_obj, 4, true, true);
+c04_pair!(c04_obj_obj_ba, g_obj, g_obj_ba, 4, true, true);
+c04_pair!(c04_obj_obj1, g_obj, g_obj1, 4);
+// role D: arrays that mix integer and float spellings of numbers (finding F7)
+c04_pair!(c04_roled_arr_if_fi, g_arr_if, g_arr_fi, 4, true, true);
